@@ -309,7 +309,7 @@ def run(prog, rep, tier):
         for b in body.calls():
             if b.term.cdef == 'crypto::aesgcm::AesGcm256::new':
                 news.append((body, b))
-    rep.floor('R03.3', len(news), 5, 'AesGcm256::new call sites in layers::encrypt')
+    rep.floor('R03.3', len(news), 2, 'AesGcm256::new call sites in layers::encrypt')
     COUNTER_FIELDS = {'current_chunk_number', 'current_ctr'}
     for body, b in news:
         rep.fn(body)
